@@ -479,4 +479,8 @@ def run(ctx):
         if not found:
             res.unknown("K-ROLE", v.fi.short, "(edge[1], edge[0]) in edge_set", "swapped-pair", "no membership test of a (target, source) pair recognised", loc(v.fi, v.fi.node))
     res.assumptions += ["in_degree counts hyperedges in which the node is a SOURCE and out_degree those in which it is a TARGET - the property's own wording, frozen in ROLE_OF"]
+    with res.guard("general lint pack over the property's files"):
+        from ..lints import check_pack
+
+        check_pack(ctx, res, "C12")
     return res
